@@ -1,4 +1,8 @@
-"""Per-property configuration for /verif/check."""
+"""Per-property configuration for /verif/check.
+
+Each property may live in its own lib/props_cNN.py defining PROP = dict(...) (and optionally
+NOT_CLAIMED_REASON); those are merged in at the bottom of this file."""
+import importlib, os, glob
 
 PROPS = {}
 NOT_CLAIMED = {}
@@ -16,3 +20,11 @@ PROPS["C09"] = dict(
     level_text="Theorems (Lean 4, all histories, all hash functions, all value types): the fast coordinate-keyed map observably equals an ordinary map over every finite Store/Delete/Load/Len history, the fast->slow switch is one-way and content-preserving. The model is tied to /repo by replaying random histories with real colliding and signed-zero keys on the real maps and meshes and diffing against the model; derived meshes (Copy/DeepCopy/MapCoords/InvertNormals) are compared with their specification.",
     level_note="Proved about the model in lean/M3d/Model/FastMap.lean; Mesh index bookkeeping is modelled (lean/M3d/Model/Mesh.lean) and tied by correspondence. Trusted: Lean kernel, propext/Quot.sound, the Go harness and driver, Go maps ~ association lists. In-place editors (mcSearch, FlattenBase, eliminateSegment) are exercised under C10, not here.",
 )
+
+for _f in sorted(glob.glob(os.path.join(os.path.dirname(__file__), "props_c[0-9][0-9].py"))):
+    _m = importlib.import_module(os.path.basename(_f)[:-3])
+    _pid = os.path.basename(_f)[6:-3].upper()
+    if hasattr(_m, "PROP"):
+        PROPS[_pid] = _m.PROP
+    if hasattr(_m, "NOT_CLAIMED_REASON"):
+        NOT_CLAIMED[_pid] = _m.NOT_CLAIMED_REASON
